@@ -1059,8 +1059,6 @@ class HttpPayloadParser:
                         chunk = chunk[pos + len(SEP) :]
                         if size == 0:  # eof marker
                             self._chunk = ChunkState.PARSE_TRAILERS
-                            if self._lax and chunk.startswith(b"\r"):
-                                chunk = chunk[1:]
                         else:
                             self._chunk = ChunkState.PARSE_CHUNKED_CHUNK
                             self._chunk_size = size
